@@ -848,7 +848,7 @@ class PeriodicFinder:
             # maximum. Especially when the seed has been chosen near an
             # interface (between two surface or surface and vacuum) this check
             # becomes important.
-            if len(scaled_pos) >= 1 / 3 * max_occurrence:
+            if len(scaled_pos) != 0 and len(scaled_pos) >= 1 / 3 * max_occurrence:
                 scaled_pos = np.array(scaled_pos)
 
                 # Find the copy with minimum distance from origin
